@@ -140,6 +140,8 @@ def execute(case, t):
         t.cls(f"table_dtype_{case['dtype']}")
     if case.get("reuse_buffers"):
         t.cls("caller_buffers_reused")
+    if case.get("huge_entries"):
+        t.cls("rows_with_huge_entries")
     if T == 1:
         t.cls("T=1")
     if K == 1:
@@ -195,7 +197,7 @@ def fuzz_seeds():
 SUBCHECKS = [
     SubCheck(
         name="kernel_vs_exact_optimum",
-        strategy=lambda: gen.cost_case(dtypes=("float32", "int64", "int32")),
+        strategy=lambda: gen.cost_case(dtypes=("float32", "int64", "int32"), very_long=True),
         execute=execute,
         pinned=_layout_cases,
         budget={"quick": 3000, "thorough": 160000},
